@@ -18,6 +18,8 @@ type dec struct {
 }
 
 // decode feeds seq in one read, then lets the escape timeout pass.
+var curSeq string
+
 func (d *dec) decode(seq string) (evs []ri.Ev, afterFeed int, pendingAfterFeed int, panicked interface{}) {
 	defer func() {
 		if r := recover(); r != nil {
@@ -25,6 +27,7 @@ func (d *dec) decode(seq string) (evs []ri.Ev, afterFeed int, pendingAfterFeed i
 		}
 	}()
 	d.p.Reset()
+	curSeq = seq
 	a := d.p.Feed([]byte(seq))
 	afterFeed = len(a)
 	pendingAfterFeed = len(d.p.Pending())
@@ -60,6 +63,9 @@ func fmtEvs(evs []ri.Ev) string {
 
 func main() {
 	w := hc.Start("C03")
+	w.WatchStall(func() (string, string, interface{}) {
+		return "decode", fmt.Sprintf("decoding %q (collectEventsFromInput does not return)", curSeq), map[string]interface{}{"seq": curSeq}
+	})
 	w.R.Rule = "for every entry registered in the live database (names and aliases): every populated Key* field (found by reflection), every xterm modifier parameter 2..16 on every cursor/editing/function key of xterm-style entries, all 32 C0 bytes and DEL, the ESC prefix on each of those and on printable bytes, lone ESC with timeout, all ordered pairs (thorough: plus triples over a 40-sequence subset) of sequences concatenated, and all pairs of table keys for the proper-prefix relation; each decode repeated 8x (map iteration order). distinct_nontrivial = distinct (entry, byte sequence) decodes that produced a non-rune key event"
 	w.R.Assumptions = []string{"which key a description assigns to a sequence is read from the entry's Key* fields by name; where several fields share a sequence any of them is accepted", "xterm modifier encoding per ctlseqs: param-1 = Shift|Alt<<1|Ctrl<<2|Meta<<3"}
 	entries := common.Entries()
